@@ -115,8 +115,12 @@ func (ft *FT) convert(c *ast.CallExpr, t Type) Val {
 		}
 	}
 	if !t.hasRef() {
-		ft.read(v.Pts)
+		ft.readVal(v)
 		return scalar(t)
+	}
+	// []T(x) of a reference-free x (string, constant) allocates
+	if t.isSlice() && len(v.Pts) == 0 && !lostRef(v) {
+		return Val{T: t, Pts: rs(ft.alloc(c))}
 	}
 	return Val{T: t, Pts: v.Pts}
 }
@@ -132,12 +136,12 @@ func (ft *FT) builtin(c *ast.CallExpr, name string) []Val {
 		return []Val{{T: t, Pts: rs(ft.alloc(c))}}
 	case "len", "cap", "min", "max", "print", "println", "panic", "delete":
 		for _, a := range ft.evalArgs(c.Args) {
-			ft.read(a.Pts)
+			ft.readVal(a)
 		}
 		return []Val{scalar(identT("int"))}
 	case "copy":
 		as := ft.evalArgs(c.Args)
-		ft.read(as[1].Pts)
+		ft.readVal(as[1])
 		ft.store(as[0].Pts, "*", ft.load(as[1].Pts, "*"))
 		return []Val{scalar(identT("int"))}
 	case "append":
@@ -150,7 +154,7 @@ func (ft *FT) builtin(c *ast.CallExpr, name string) []Val {
 		for i, a := range as[1:] {
 			v := a.Pts
 			if c.Ellipsis.IsValid() && i == len(as)-2 {
-				ft.read(a.Pts)
+				ft.readVal(a)
 				v = ft.load(a.Pts, "*")
 			}
 			ft.store(res, "*", v)
@@ -163,22 +167,31 @@ func (ft *FT) builtin(c *ast.CallExpr, name string) []Val {
 	return ft.unknownCall(ft.evalArgs(c.Args))
 }
 
-// libCall applies a trusted library effect signature.
+// libCall applies a trusted library effect signature.  recv == nil for
+// package-level functions.
 func (ft *FT) libCall(site ast.Node, sig libSig, fld string, recvT Type, recv RootSet, args []Val) []Val {
+	widx := -1
+	switch sig.Eff {
+	case "W0":
+		widx = 0
+	case "W1":
+		widx = 1
+	}
 	for i, a := range args {
-		if !(sig.Eff == "W0" && i == 0) {
-			ft.read(a.Pts)
+		if i != widx {
+			ft.readVal(a)
 		}
 	}
+	isMethod := recv != nil
 	switch sig.Eff {
 	case "W":
-		ft.write(recv, fld)
-	case "R":
-		ft.read(recv)
-	case "W0":
-		ft.read(recv)
-		if len(args) > 0 {
-			ft.write(args[0].Pts, "")
+		ft.writeRef(recv, fld)
+	default:
+		if isMethod {
+			ft.readRef(recv)
+		}
+		if widx >= 0 && widx < len(args) {
+			ft.writeVal(args[widx], "")
 		}
 	}
 	t := sig.T
@@ -193,11 +206,12 @@ func (ft *FT) libCall(site ast.Node, sig libSig, fld string, recvT Type, recv Ro
 		res = Val{T: t, Pts: RootSet{}}
 		if len(args) > 0 {
 			res.Pts = args[0].Pts.copy()
+			res.NoRef = args[0].NoRef
 		}
 	case "fresh", "fresh+arg0":
 		res = Val{T: t, Pts: rs(ft.alloc(site))}
 		if sig.Res == "fresh+arg0" && len(args) > 0 {
-			ft.write(args[0].Pts, "")
+			ft.writeVal(args[0], "")
 			res.Pts.addAll(args[0].Pts)
 		}
 	default:
